@@ -546,6 +546,7 @@ C01.defined: wherever constraints_and_type_name renders a component with the `<P
     ctx.extra.insert("text2tok_sites".into(), json!(sites));
     defined(m, ctx, "C01.defined");
     inner_names(m, ctx, "C01.inner");
+    empty_set(m, ctx, "C01.emptyset", &derive);
     // names that are referred to are the names that are generated (shared with C02.defname)
     crate::rules::c02::defname(m, ctx, "C01.defname");
     // the type of a component and the type of its DEFAULT function / value are chosen by two selectors (shared with C06.agree)
@@ -564,6 +565,94 @@ C01.defined: wherever constraints_and_type_name renders a component with the `<P
 /// differs from its ASN.1 identifier (`stationID` / `station_id`): the type it returns is inner_name(ASN.1 identifier, parent).
 /// (2) no call of inner_name anywhere is fed a rendered Rust identifier (an Ident / TokenStream / the result of a to_rust_*
 /// mangler, directly or through `.to_string()`).
+/// rasn's derive refuses `#[rasn(set)]` on a struct without fields (read from the pinned rasn-derive-impl). A SET type
+/// without components must therefore be reported, or be rendered without the `set` key — generate_sequence_or_set is
+/// evaluated whole (sub-formatters symbolic) on empty and non-empty SEQUENCE / SET types.
+pub fn empty_set(m: &Model, ctx: &mut Ctx, rule: &str, derive: &std::path::Path) {
+    let refuses = std::fs::read_dir(derive.join("src")).map(|d| d.flatten().any(|e| std::fs::read_to_string(e.path()).map(|t| t.contains("struct without fields not allowed to be a `set`")).unwrap_or(false))).unwrap_or(false);
+    ctx.oblige(rule, "rasn-derive:empty-set-restriction-read", true);
+    if !refuses {
+        // the pinned derive accepts it: nothing to demand
+        return;
+    }
+    let Some(f) = anchor_fn(m, ctx, rule, Some("Rasn"), "generate_sequence_or_set", None) else { return };
+    let consts = const_resolver(m);
+    let ok = |v: Val| Val::Ctor("Ok".into(), vec![v], BTreeMap::new());
+    let hook = move |_: &Evaluator, name: &str, a: &[Val]| -> Option<Result<Val, String>> {
+        match name {
+            ".to_rust_title_case" => Some(Ok(Val::Sym("Name".into()))),
+            ".format_sequence_or_set_members" => {
+                let mut fm = BTreeMap::new();
+                for k in ["struct_body", "nested_anonymous_types", "name_types"] {
+                    fm.insert(k.to_string(), Val::Sym(format!("<{}>", k)));
+                }
+                Some(Ok(ok(Val::Ctor("FormattedMembers".into(), vec![], fm))))
+            }
+            ".format_tag" | ".format_comments" | ".format_new_impl" | ".format_default_impl" | ".format_identifier_annotation" => Some(Ok(Val::Sym(String::new()))),
+            ".format_default_methods" => Some(Ok(ok(Val::Sym(String::new())))),
+            ".join_annotations" => Some(Ok(ok(Val::Sym(match a.get(1) {
+                Some(Val::List(l)) => format!("<annotations {}>", l.iter().map(|v| match v { Val::Sym(s) | Val::Str(s) => s.clone(), o => o.show() }).filter(|s| !s.is_empty()).collect::<Vec<_>>().join(",")),
+                o => format!("<annotations ?{}>", o.map(|v| v.show()).unwrap_or_default()),
+            })))),
+            "sequence_or_set_template" => Some(Ok(Val::Sym(a.iter().map(|v| match v { Val::Sym(s) | Val::Str(s) => s.clone(), o => o.show() }).collect::<Vec<_>>().join(" ")))),
+            ".type_mismatch_error" | "GeneratorError::new" => Some(Ok(Val::Ctor(if name == "GeneratorError::new" { "GeneratorError" } else { "Err" }.into(), vec![Val::Sym("error".into())], BTreeMap::new()))),
+            _ => None,
+        }
+    };
+    let ev = Evaluator { consts: &consts, call_hook: &hook, inline: None };
+    let param = f.sig.inputs.iter().filter_map(|a| match a { syn::FnArg::Typed(t) => Some(tok(&t.pat)), _ => None }).next().unwrap_or("tld".into());
+    let named = |n: &str, fields: Vec<(&str, Val)>| Val::Ctor(n.to_string(), vec![], fields.into_iter().map(|(k, v)| (k.to_string(), v)).collect::<BTreeMap<_, _>>());
+    let member = named("SequenceOrSetMember", vec![
+        ("name", Val::Str("a".into())), ("tag", Val::none()), ("ty", Val::Ctor("Boolean".into(), vec![Val::Opaque("b".into())], BTreeMap::new())),
+        ("optionality", Val::ctor("Required")), ("is_recursive", Val::Bool(false)), ("constraints", Val::List(vec![])),
+    ]);
+    for (kind, n_members, extensible) in [("Set", 0usize, false), ("Set", 0, true), ("Set", 1, false), ("Sequence", 0, false), ("Sequence", 1, false)] {
+        let key = format!("{}:{}-components{}", kind, n_members, if extensible { ":extensible" } else { "" });
+        ctx.oblige(rule, &key, true);
+        let seq = named("SequenceOrSet", vec![
+            ("members", Val::List((0..n_members).map(|_| member.clone()).collect())),
+            ("extensible", if extensible { Val::some(Val::int(0)) } else { Val::none() }),
+            ("constraints", Val::List(vec![])), ("components_of", Val::List(vec![])),
+        ]);
+        let tld = named("ToplevelTypeDefinition", vec![
+            ("name", Val::Str("Name".into())), ("comments", Val::Str(String::new())), ("tag", Val::none()), ("parameterization", Val::none()), ("module_header", Val::none()),
+            ("ty", Val::Ctor(kind.into(), vec![seq], BTreeMap::new())),
+        ]);
+        let mut env = Env::new();
+        env.insert("self".into(), named("Rasn", vec![
+            ("config", named("Config", vec![("opaque_open_types", Val::Bool(true))])),
+            ("tagging_environment", Val::ctor("Explicit")), ("extensibility_environment", Val::ctor("Explicit")),
+        ]));
+        env.insert(param.clone(), tld);
+        match ev.eval_fn_body(&f.block, &mut env) {
+            Ok(Val::Ctor(c, p, _)) if c == "Ok" => {
+                let text = match p.first() { Some(Val::Sym(s)) => s.clone(), Some(o) => o.show(), None => String::new() };
+                let ann = text.find("<annotations ").map(|i| &text[i + 13..]).and_then(|t| t.find('>').map(|e| t[..e].to_string()));
+                let Some(ann) = ann else {
+                    ctx.fail_closed(rule, &format!("[{}]: the container annotations were not found in the result {}", key, text.chars().take(120).collect::<String>()));
+                    continue;
+                };
+                let has_set = ann.split(',').any(|a| a.trim() == "set");
+                if kind == "Set" && n_members == 0 && has_set {
+                    ctx.violate(rule, "empty-set:rendered-as-set", &f.file, f.line,
+                        &format!("`Name ::= SET {{{}}}` is rendered as a struct without fields under `#[rasn(set)]`, which the pinned rasn derive refuses (\"struct without fields not allowed to be a `set`\"): the bindings do not compile although no warning was returned", if extensible { " ... " } else { "" }));
+                } else if kind == "Set" && n_members > 0 && !has_set {
+                    ctx.violate(rule, "set:not-marked", &f.file, f.line, "a SET type with components is rendered without the `set` key (it would be encoded as a SEQUENCE)");
+                } else if kind == "Sequence" && has_set {
+                    ctx.violate(rule, "sequence:marked-set", &f.file, f.line, "a SEQUENCE type is rendered with the `set` key");
+                }
+            }
+            Ok(Val::Ctor(c, _, _)) if c == "Err" => {
+                if !(kind == "Set" && n_members == 0) {
+                    ctx.violate(rule, &format!("refused:{}", key), &f.file, f.line, &format!("a {} type with {} component(s) is refused by generate_sequence_or_set: rasn supports it, the definition is lost to a warning", kind.to_uppercase(), n_members));
+                }
+            }
+            Ok(o) => ctx.fail_closed(rule, &format!("[{}]: result {}", key, o.show().chars().take(120).collect::<String>())),
+            Err(e) => ctx.fail_closed(rule, &format!("[{}]: {}", key, e)),
+        }
+    }
+}
+
 pub fn inner_names(m: &Model, ctx: &mut Ctx, rule: &str) {
     if let Some(f) = anchor_fn(m, ctx, rule, Some("Rasn"), "format_member_or_option", None) {
         let consts = const_resolver(m);
